@@ -112,7 +112,7 @@ func rwWitness(cfg rwCfg, ops []rwOp, upto int, every bool) map[string]any {
 		}
 	}
 	return map[string]any{"size": cfg.Size, "interval_ns": int64(cfg.Interval), "ignore_current": cfg.Ignore, "float64": cfg.Float,
-		"t0": fmt.Sprintf("virtual clock %dns + %dns", int64(kit.VClockStart), int64(cfg.T0Off)),
+		"t0":                            fmt.Sprintf("virtual clock %dns + %dns", int64(kit.VClockStart), int64(cfg.T0Off)),
 		"reduce_checked_after_every_op": every, "ops": s}
 }
 
